@@ -26,6 +26,7 @@ type Solver struct {
 
 	queries, nSat, nUnsat, nUnknown int
 	solveTime                      time.Duration
+	syncTime                       time.Duration
 	timeoutMs                      int
 	name                           string
 }
@@ -71,6 +72,8 @@ func (s *Solver) raw(line string) {
 }
 
 func (s *Solver) sync() {
+	t0 := time.Now()
+	defer func() { s.syncTime += time.Since(t0) }()
 	s.in.Flush()
 	for s.pending > 0 {
 		line, err := s.out.ReadString('\n')
